@@ -455,3 +455,42 @@ def bow_table(db, ctx):
     ctx.ob("can_bow|truth-table", not bad,
            "value stored into mod_bow over (blocked-by-previous, NOOOVBOW2, NOOOVBOW, alpha/greek/cyrillic, shares-a-class-with-previous): %d of %d rows "
            "as specified%s" % (n - len(bad), n, "" if not bad else "; first differing row %s gives %s, specified %s" % bad[0]), fn=f, site=stores[0].get("sp"))
+
+
+@rule("C13.regex-anchored", "the regex OOV provider builds a node only from a match that STARTS at the queried position: the node construction is "
+                            "reachable when the match start (relative to the slice handed to the regex) is 0 and unreachable when it is > 0 — the "
+                            "`^` prefix anchors only the first alternative of a pattern with a top-level `|`, so a later match would otherwise be "
+                            "reported as a candidate spanning text the pattern does not describe")
+def regex_anchored(db, ctx):
+    from ..flow import holds_at
+    from ..guards import holds
+    from ..db import deref_all, SWAP
+    impls = [f for f in db.impls_of("OovProviderPlugin::provide_oov") if "RegexOovProvider" in f.key]
+    if len(impls) != 1:
+        raise AnchorMissing("RegexOovProvider::provide_oov")
+    f = db.view(impls[0])
+
+    def is_start(e):
+        d = peel_casts(deref_all(e)) if isinstance(e, dict) else None
+        return isinstance(d, dict) and d.get("k") == "MethodCall" and d.get("method") == "start" and "Match" in (peel(d["recv"]).get("ty") or "")
+
+    def ev_start(v):
+        def ev(atom):
+            cm = cmp_atom(atom)
+            if not cm:
+                return None
+            for l_, r_, op in ((cm[1], cm[2], cm[0]), (cm[2], cm[1], SWAP[cm[0]])):
+                if is_start(l_) and lit_int(r_) is not None:
+                    return holds(op, v, lit_int(r_))
+            return None
+        return ev
+    sites = [c for c, _ in walk(f.hir) if is_call(c) and path_ends(callee(c) or "", "inner::Node::new")]
+    if not sites:
+        raise AnchorMissing("RegexOovProvider::provide_oov: Node::new")
+    for c in sites:
+        pcs = path_conditions(c["id"], f.hir) or []
+        at0, at1, at7 = (holds_at(pcs, ev_start(v)) for v in (0, 1, 7))
+        ctx.ob("RegexOovProvider::provide_oov|node-only-at-start", at0 is not False and at1 is False and at7 is False,
+               "the candidate node is built when the match starts at 0 / 1 / 7 bytes into the queried text: %s (must be yes / no / no)" % (
+                   ["yes" if x is not False else "no" for x in (at0, at1, at7)]), fn=f, site=c.get("sp"))
+    ctx.floor(1)
